@@ -247,6 +247,12 @@ class Gen:
         self.ops.append({"t": "hangup", "k": k, "script": rand_script(self.r, self.cfg)})
         del self.conns[k]
 
+    def direct(self):
+        r = self.r
+        ts = [r.choice(USERS + ["nobody", "alice@localhost"]) for _ in range(r.choice([1, 1, 2, 3, 4]))]
+        pl = rand_payload(r, self.cfg)
+        self.ops.append({"t": "m2s_direct", "targets": [t.encode().hex() for t in ts], "payload": pl.hex()})
+
     def build(self, n):
         r = self.r
         for _ in range(r.randint(2, 4)):
@@ -257,6 +263,8 @@ class Gen:
                 self.open_conn()
             elif x < 0.17:
                 self.hangup()
+            elif x < 0.21:
+                self.direct()
             else:
                 self.request()
         return self.ops
@@ -396,6 +404,8 @@ def op_term(op, hints):
         return "Bytes %d %s %s %s" % (op["k"], hx(op["bytes"]), script_term(op.get("script")), hints)
     if t == "hangup":
         return "Hangup %d %s %s" % (op["k"], script_term(op.get("script")), hints)
+    if t == "m2s_direct":
+        return "Direct [%s] %s" % (";".join(hx(x) for x in op["targets"]), hx(op["payload"]))
     raise ValueError(t)
 
 
